@@ -749,3 +749,30 @@ def flag_after_reset_problems(repo, flag='association_established'):
                                                  'false whatever the association was' % (fi.loc(y), x, flag, y.lineno, st.lineno,
                                                                                          '/'.join(sorted(clearing))))
     return sorted(set(probs)), n
+
+
+def selfcheck_loop_progress():
+    """positive and negative example for loop_progress_problems, run with the rule (it matches no loop of the pinned tree)"""
+    class _F:
+        def __init__(self, src):
+            self.node = ast.parse(src).body[0]
+            self.params = [a.arg for a in self.node.args.args]
+            self.cls = None
+            self.name = self.node.name
+
+        def loc(self, n_=None):
+            return 'example:%d' % getattr(n_, 'lineno', 0)
+
+    class _M:
+        def __init__(self, src):
+            self.functions = {'f': _F(src)}
+            self.classes = {}
+
+    class _R:
+        def __init__(self, src):
+            self.modules = {'x': _M(src)}
+    bad = 'def f(buf, end):\n    off = 0\n    while off < end:\n        n = buf[off]\n        if n == 0:\n            continue\n        off += n\n'
+    good = 'def f(buf, end):\n    off = 0\n    while off < end:\n        n = buf[off]\n        if n == 0:\n            off += 1\n            continue\n        off += n\n'
+    pb, nb = loop_progress_problems(_R(bad), modules=('x',))
+    pg, ng = loop_progress_problems(_R(good), modules=('x',))
+    return bool(pb) and nb == 1 and not pg and ng == 1
